@@ -195,4 +195,18 @@ PROPS = {
              "(lit_buf etc., cleared per item) are outside the Lean model and only measured. The stream engine's "
              "model side merely predicts the item count. Trusted: Lean kernel, harness, counting allocator.",
         assumptions=["chunk >= 1", "honest source"]),
+    "C06": dict(
+        module="Flussab.Props.C06", engines=[("cnf", 4000, 150000, "layout+rt+mutate+arbitrary+log+logmut")],
+        bv_decide_theorems=[],
+        claim="Numbers: every number token is produced by the decimal scanners, which return the exact decimal value "
+              "of the digit run or None (C13) - restated at token level (unsigned_token_exact, signed_token_exact: a "
+              "returned value equals +-decVal of the digits and fits the type, never a wrapped value); the truncating "
+              "from_dimacs cast is the identity within MAX_DIMACS (from_dimacs_lossless). Limits (literals within the "
+              "declared variable count, clause count, groups) are invariants of the parser models, added as theorems "
+              "with the parser-level proof files; until then they are carried by the engine: every accepted input is "
+              "re-read by an independent whitespace tokenizer with arbitrary-precision numerals and the limits are "
+              "recomputed from the header, for all 5 literal types and both ignore_header settings.",
+        note="Parser-level limit theorems for DIMACS are in progress (Hoare-style proof files); AIGER/BTOR2 parts "
+             "arrive with their models. Trusted: Lean kernel, harness, the independent reference lexer.",
+        assumptions=["64-bit usize/isize"]),
 }
